@@ -18,6 +18,7 @@ import pathlib
 from pathlib import Path
 
 BASE = 1_000_000_000
+STEP = 0.5          # seconds per model clock tick: sub-second, so that a cache mtime pushed forward by a whole second is visible
 CLOCK = [1]
 real_stdout = sys.stdout
 
@@ -44,7 +45,7 @@ def which(p):
 
 def stamp(p):
     try:
-        t = BASE + CLOCK[0]
+        t = BASE + CLOCK[0] * STEP
         os.utime(p, (t, t))
     except OSError:
         pass
